@@ -22,6 +22,9 @@ var raceMode bool
 // raceFailOnce: most converters are run-once and fail the first time their body runs
 var raceFailOnce bool
 
+// raceMixed counts executions that received values tagged by two different goroutines (ids 8000+g*100+i)
+var raceMixed int
+
 var raceMu sync.Mutex // protects the harness's own bookkeeping inside function bodies
 
 // raceLogSize sums the sizes of the race detector's log files (GORACE=log_path=<prefix>).
@@ -149,6 +152,16 @@ func genRace(w *bufio.Writer, r *rng, id int, goroutines, rounds int) {
 	for _, f := range sc.Funcs {
 		f.execs = 0
 	}
+	// a redefined function shared by all goroutines (when Redefine succeeds)
+	var rf *am.Func
+	var rfIns []am.Value
+	func() {
+		defer func() { recover() }()
+		if f, err := sc.Funcs[0].fn.Redefine(shared...); err == nil && f != nil && f.Input() != nil {
+			rf, rfIns = f, f.Input().Values()
+		}
+	}()
+	raceMixed = 0
 	got := map[string]int{}
 	var mu sync.Mutex
 	var wg sync.WaitGroup
@@ -176,9 +189,30 @@ func genRace(w *bufio.Writer, r *rng, id int, goroutines, rounds int) {
 							_ = err
 						}
 					case 3:
-						_, err := sc.Funcs[0].fn.Redefine(shared...)
-						out = "redefine"
-						_ = err
+						if rf != nil && k%2 == 0 {
+							// the redefined function, shared by all goroutines, called with values tagged by goroutine
+							var outer []am.Arg
+							for i, v := range rfIns {
+								ty := tyID(v.Type)
+								if isIface(ty) {
+									if impl := implementers(ty); len(impl) > 0 {
+										ty = impl[0]
+									}
+								}
+								val := mkValue(ty, 8000+g*100+i, -1).Interface()
+								if v.Name != "" {
+									outer = append(outer, am.Named(v.Name, val))
+								} else {
+									outer = append(outer, am.Typed(val))
+								}
+							}
+							rf.Call(outer...)
+							out = "redefined-call"
+						} else {
+							_, err := sc.Funcs[0].fn.Redefine(shared...)
+							out = "redefine"
+							_ = err
+						}
 					}
 				}()
 				mu.Lock()
@@ -230,7 +264,7 @@ func genRace(w *bufio.Writer, r *rng, id int, goroutines, rounds int) {
 	}
 	sort.Strings(outs)
 	sort.Strings(seqs)
-	fmt.Fprintf(w, "seq %s\ngot %s\nonce %s\n", strings.Join(seqs, ","), strings.Join(outs, ","), strings.Join(once, ","))
+	fmt.Fprintf(w, "seq %s\ngot %s\nonce %s\nmixed %d\n", strings.Join(seqs, ","), strings.Join(outs, ","), strings.Join(once, ","), raceMixed)
 	if after > before {
 		fmt.Fprintf(w, "race yes %s\n", tildeOnly(raceSummary(file, before)))
 	} else {
